@@ -22,6 +22,15 @@ def prog(body):
 
 
 KEY = "    let mut key = ThreadKey::get().unwrap();\n"
+SENDRAW = """    struct SendRaw(std::sync::atomic::AtomicBool);
+    unsafe impl lock_api::RawMutex for SendRaw {
+        const INIT: Self = SendRaw(std::sync::atomic::AtomicBool::new(false));
+        type GuardMarker = lock_api::GuardSend;
+        fn lock(&self) { while !self.try_lock() {} }
+        fn try_lock(&self) -> bool { !self.0.swap(true, std::sync::atomic::Ordering::Acquire) }
+        unsafe fn unlock(&self) { self.0.store(false, std::sync::atomic::Ordering::Release) }
+    }
+"""
 M = "    let m = Mutex::new(1);\n    let m2 = Mutex::new(2);\n"
 
 # (name, property, route, offending body, twin body, model predicts REJECTED (Coq bool), expected error codes, known class)
@@ -82,6 +91,14 @@ ITEMS = [
      KEY + "    let m: &'static Mutex<i32> = Box::leak(Box::new(Mutex::new(1)));\n    let g = m.lock(key);\n    std::thread::spawn(move || drop(g));",
      KEY + "    let m: &'static Mutex<i32> = Box::leak(Box::new(Mutex::new(1)));\n    let g = m.lock(key);\n    drop(g);",
      'negb (table_impl MSend (TCon "MutexGuard" (TPay true true)))', ["E0277"], None),
+    ("guard_send_guardsend_raw", "C14", "key-holding guard of a Mutex over a raw lock whose guards may be sent (GuardMarker = GuardSend) moved to another thread",
+     SENDRAW + KEY + "    let m: &'static happylock::mutex::Mutex<i32, SendRaw> = Box::leak(Box::new(happylock::mutex::Mutex::new(1)));\n    let g = m.lock(key);\n    std::thread::spawn(move || drop(g));",
+     SENDRAW + KEY + "    let m: &'static happylock::mutex::Mutex<i32, SendRaw> = Box::leak(Box::new(happylock::mutex::Mutex::new(1)));\n    let g = m.lock(key);\n    drop(g);",
+     'negb (impl_auto auto_rules (mkrf true true true true) MSend (TCon "MutexGuard" (TPay true true)))', ["E0277"], None),
+    ("collection_guard_send_guardsend_raw", "C14", "collection guard over such mutexes moved to another thread",
+     SENDRAW + KEY + "    let c: &'static LockCollection<(happylock::mutex::Mutex<i32, SendRaw>,)> = Box::leak(Box::new(LockCollection::new((happylock::mutex::Mutex::new(1),))));\n    let g = c.lock(key);\n    std::thread::spawn(move || drop(g));",
+     SENDRAW + KEY + "    let c: &'static LockCollection<(happylock::mutex::Mutex<i32, SendRaw>,)> = Box::leak(Box::new(LockCollection::new((happylock::mutex::Mutex::new(1),))));\n    let g = c.lock(key);\n    drop(g);",
+     'negb (impl_auto auto_rules (mkrf true true true true) MSend (TCon "LockGuard" (TCon "MutexRef" (TPay true true))))', ["E0277"], None),
     ("collection_guard_send", "C14", "collection guard moved to another thread",
      KEY + "    let c: &'static LockCollection<(Mutex<i32>,)> = Box::leak(Box::new(LockCollection::new((Mutex::new(1),))));\n    let g = c.lock(key);\n    std::thread::spawn(move || drop(g));",
      KEY + "    let c: &'static LockCollection<(Mutex<i32>,)> = Box::leak(Box::new(LockCollection::new((Mutex::new(1),))));\n    let g = c.lock(key);\n    drop(g);",
@@ -270,7 +287,7 @@ def run_corpus(items, grid=None):
     os.makedirs(bind, exist_ok=True)
     with open(os.path.join(d, "Cargo.toml"), "w") as f:
         f.write('[package]\nname = "hl-corpus"\nversion = "0.1.0"\nedition = "2021"\n\n[dependencies]\n'
-                f'happylock = {{ path = "{hl.REPO}" }}\nparking_lot = "0.12"\n\n[workspace]\n')
+                f'happylock = {{ path = "{hl.REPO}" }}\nparking_lot = "0.12"\nlock_api = "0.4"\n\n[workspace]\n')
     subprocess.run(["cp", os.path.join(hl.REPO, "Cargo.lock"), os.path.join(d, "Cargo.lock")])
     for it in items:
         open(os.path.join(bind, it[0] + "_bad.rs"), "w").write(prog(it[3]))
